@@ -226,6 +226,10 @@ func run(t *T) {
 	for i := 0; i < n; i++ {
 		r := t.R.Fork(uint64(i))
 		o := gen.Opts{SECs: secGroups[i%len(secGroups)], MinBatches: 1, MaxBatches: 3, MaxEntries: 3}
+		if i%14 == 0 {
+			// a one-block file (10 lines, < 1024 bytes): it fits entirely into the charset sniffing window of the Reader
+			o.MinBatches, o.MaxBatches, o.MaxEntries, o.MaxAddenda = 1, 1, 1, -1
+		}
 		if i%3 == 2 {
 			o.MinBatches, o.MaxBatches, o.MaxEntries = 4, 5, 6 // > 4096 bytes: flushes in the middle of Write
 		}
@@ -273,6 +277,7 @@ func run(t *T) {
 	// re-parsed copy of the file instead of sharing one *ach.File.
 	ch := make(chan *job)
 	var wg sync.WaitGroup
+	var errMu sync.Mutex
 	for w := 0; w < workers; w++ {
 		wg.Add(1)
 		go func() {
@@ -283,7 +288,9 @@ func run(t *T) {
 				if f == nil {
 					g, err := ach.NewReader(bytes.NewReader(j.fc.text)).Read()
 					if err != nil {
+						errMu.Lock()
 						j.fc.genEr = err
+						errMu.Unlock()
 						continue
 					}
 					f = &g
